@@ -8,7 +8,8 @@
      OrderOk ord          ord d is a permutation of the imports of d: any HashMap iteration order
      Covers fs canon r U  U lists (at least) the reachable directories; fuel > length U suffices. *)
 From Zinoma.Model Require Import Config.
-From Zinoma.Proofs Require Import ConfigSchema ConfigLoad ConfigMain ConfigExamples ConfigRes.
+From Zinoma.Proofs Require Import ConfigSchema ConfigLoad ConfigMain ConfigExamples ConfigRes ConfigResMain.
+Require Zinoma.Proofs.Resolver.
 From Coq Require Import Permutation.
 
 (* ---- strict: what serde accepts is exactly the grammar (no unknown key at any level, a target is the first of
@@ -180,8 +181,19 @@ Theorem C14_resolver_preconditions : forall fs canon root ord U fuel c ic,
   (forall pn dir pr, In (pn, (dir, pr)) (ic_projects ic) ->
      (forall p, pn = Some p -> valid_name p = true) /\
      (forall n yt, In (n, yt) (yp_targets pr) -> valid_name n = true)) /\
-  NoDup (map fst (ic_projects ic)).
+  NoDup (map fst (ic_projects ic)) /\
+  (forall dp, In (None, dp) (ic_projects ic) -> ic_root_name ic = None).
 Proof. exact loaded_resolver_preconditions. Qed.
+
+(* composed with slice RES's theorems about the rest of main (name listing, request parsing, resolution: the real
+   `main_phases` model): after ANY accepted load, main never panics, reports only documented resolver errors, and has
+   performed no effect unless it runs *)
+Theorem C14_whole_main_never_panics : forall fs canon root ord U fuel c ic req clean watch effs out,
+  OrderOk ord -> Covers fs canon root U -> load_config fs canon ord fuel root = LOk c -> to_ir c = Some ic ->
+  Resolver.main_phases ic req clean watch = (effs, out) ->
+  out <> Resolver.OutPanic /\ (forall e, out = Resolver.OutResolveError e -> Zinoma.Proofs.Resolver.reported_class e) /\
+  (out <> Resolver.OutRan -> effs = []).
+Proof. exact loaded_main_never_panics. Qed.
 
 (* ---- errors precede effects ---- *)
 Theorem C14_error_before_effects : forall fs canon ord resolve E effects_of fuel root req clean watch,
